@@ -1,3 +1,4 @@
+mod codec_drv;
 mod grid_drv;
 mod level_drv;
 mod model;
@@ -47,6 +48,17 @@ fn main() {
             let mut lines = vec![];
             for sc in &scs {
                 lines.extend(grid_drv::run(sc));
+            }
+            write_lines(&args[3], &lines);
+            if args.len() > 4 {
+                std::fs::write(&args[4], "[]").unwrap();
+            }
+        }
+        "codec" => {
+            let scs = read_ndjson(&args[2]);
+            let mut lines = vec![];
+            for sc in &scs {
+                lines.extend(codec_drv::run(sc));
             }
             write_lines(&args[3], &lines);
             if args.len() > 4 {
